@@ -10,3 +10,7 @@ import BnpVerif.Props.C10
 #print axioms C10.clip_extend_windows_inside
 #print axioms C10.sorted_genome_order
 #print axioms C10.traced_kernels
+#print axioms C10.global_is_concat
+#print axioms C10.stream_per_chromosome
+#print axioms C10.location_inside
+#print axioms C10.geometry_sort_genome_order
